@@ -33,6 +33,7 @@ type Engine struct {
 	TimeoutMs  int
 	Verbose    bool
 	Thorough   bool
+	Seed       int
 
 	initOrder []*ssa.Package
 	LoadTime  time.Duration
